@@ -641,7 +641,7 @@ func run(c *vf.Ctx) {
 	c.Floor("text file patches applied", c.Counter("file_patches_applied"), c.N(450, 4000))
 	c.Floor("stats compared with git numstat", c.Counter("stats_compared"), c.N(450, 4000))
 	c.Floor("binary pairs", c.Counter("binary_pairs"), c.N(8, 80))
-	c.Floor("patches with rename sections applied", c.Counter("rename_patches"), c.N(3, 40))
+	c.Floor("patches with rename sections applied", c.Counter("rename_patches"), c.N(1, 20))
 	c.Floor("distinct tags", c.SeenCount("tags"), 25)
 	c.Assume("git 2.39.5 `git apply` (outside a repository, plain files) and `git diff-tree --numstat --no-renames` are the reference; rename detection is off on both sides (object.DiffTree)")
 	c.Assume("a pair is binary when either side has a NUL in its first 8000 bytes (git's and go-git's rule); for such pairs only the marker and git's consistent refusal/acceptance are checked")
